@@ -97,6 +97,8 @@ func checkC12(w *World, r *Report) {
 	r.Trusted = []string{"miekg/dns v1.1.34 does not recover panics in handlers and accepts only messages with exactly one question (DefaultMsgAcceptFunc)", "recover() in a deferred closure stops a panic raised later in the same goroutine"}
 	r.Rule("R12.1", "panic containment at both untrusted entry points", 2)
 	r.Rule("R12.9", "an error answer always decodes to an error (the client's callers type-assert the answer when Query reports none)", 1)
+	r.Rule("R12.11", "whatever the answers of the DNS path, a codec detection step of the client leaves a codec stored (the next step dereferences it outside any recover)", 2)
+	ruleCodecCommitFollowsItsProbe(w, r, "R12.11")
 	r.Rule("R12.10", "no query can leave a lock of the DNS endpoint held: every Lock is released on every path out of the function", 10)
 	ruleLockPairing(w, r, "R12.10", dnsPkgFuncs(w))
 	r.Rule("R12.8", "a query cannot disturb an established session unless it passed the owner check (handlers touch session state only on the err == nil edge of validateAndGetUser)", 4)
@@ -697,7 +699,7 @@ func c12ErrorAnswerIsAnError(w *World, r *Report) {
 			return false
 		}
 		fa := asFieldAddr(st.Addr)
-		return fa != nil && fieldVarOf(fa) == errF && !isConstNil(st.Val)
+		return fa != nil && fieldVarOf(fa) == errF
 	}
 	var maybeNil func(st *pathState, v ssa.Value, d int) bool
 	maybeNil = func(st *pathState, v ssa.Value, d int) bool {
@@ -739,6 +741,12 @@ func c12ErrorAnswerIsAnError(w *World, r *Report) {
 			return // a definite failure
 		}
 		nsucc++
+		if k := len(e.State.Events); k > 0 {
+			if last := e.State.Events[k-1].(*ssa.Store); errMaybeNil(e.State, last.Val, 0) {
+				bad = fmt.Sprintf("%s: the value stored into Err can be nil on a path on which Decode reports success (%s): the answer reaches the client's callers as 'no error', they type-assert it to the answer type they asked for and the client panics outside any recover — one crafted error answer (an empty text) kills the client", w.Pos(last.Pos()), describeValue(w, last.Val))
+			}
+			return
+		}
 		if len(e.State.Events) == 0 {
 			bad = fmt.Sprintf("%s: Decode can return a nil error here without having stored an error into Err (errors.WithStack(nil) is nil): the answer then reaches the client's callers as 'no error', they type-assert it to the answer type they asked for and the client panics outside any recover — one crafted error answer (a NUL byte in its text) kills the client", w.Pos(ret.Pos()))
 		}
